@@ -150,7 +150,7 @@ def run(ctx):
     n_invalid_go = 0
     n_pprint = 0
     n_prog = n_agree = n_exp = n_exp_ok = n_fuel = n_extern = 0
-    n_from_src = n_gen = n_gen_src = n_exp_src = n_exp_src_ok = 0
+    n_from_src = n_gen = n_gen_src = n_exp_src = n_exp_src_ok = n_corpus = n_corpus_src = 0
     fallback = {}
     pending = []
     samples, distinct = [], set()
@@ -210,10 +210,13 @@ def run(ctx):
             n_from_src += 1
             if pid.startswith("gen"):
                 n_gen_src += 1
+            if pid.startswith(("repo:", "pkg:")):
+                n_corpus_src += 1
         else:
             ref_stage = "core" if not o["core"][0].startswith("stuck") else "mono"
             fallback[why] = fallback.get(why, 0) + 1
         n_gen += pid.startswith("gen")
+        n_corpus += pid.startswith(("repo:", "pkg:"))
         ref = o[ref_stage]
         ext = bool(ref[2].strip())
         n_extern += ext
@@ -303,10 +306,11 @@ def run(ctx):
         "samples": samples or [{"id": "corpus only"}],
         "evaluations": n_prog * len(CHAIN), "distinct_nontrivial": len(distinct),
         "rule": "one program = 82-program corpus (74 single-file pipeline programs here) + type-directed generated programs over the feature lattice; every accepted program's real "
-                "Core/Mono/Lift/ANF dumps run under Sem and its real Go AST under Go.Sem; non-trivial = prints something; distinct by stdout and Go size",
+                "Core/Mono/Lift/ANF dumps run under Sem and its real Go AST under Go.Sem, its real ast::File(s) under SrcSem (the reference); non-trivial = prints something; distinct by stdout and Go size",
         "all_stages_agree": n_agree, "with_recorded_output": n_exp, "recorded_output_reproduced": n_exp_ok,
         "reference_is_source_level(SrcSem)": n_from_src, "reference_fell_back_to_core_or_mono": sum(fallback.values()),
         "fallback_reasons": fallback,
+        "repository_corpus_programs_compared": n_corpus, "repository_corpus_programs_compared_from_src": n_corpus_src,
         "generated_programs_compared": n_gen, "generated_programs_compared_from_src": n_gen_src,
         "with_recorded_output_and_src_reference": n_exp_src, "recorded_output_reproduced_by_SrcSem": n_exp_src_ok,
         "derive_expansion_checked": derive_checked,
@@ -315,10 +319,11 @@ def run(ctx):
         "generator_features": feats,
     }
     ctx.assumptions += [
-        "Sem (lean/GomlVerif/Model/Sem.lean) is the source-level meaning; Go.Sem (Model/GoSem.lean) is our reading of the Go spec for the emitted subset, validated against the outputs recorded from real Go",
+        "SrcSem (lean/GomlVerif/Model/SrcSem.lean) on the real ast::File dumps is the source-level meaning whenever it decides (status not unsupported:…); it is validated, like Go.Sem, by reproducing the outputs recorded from real Go; it starts at ast::File, so CST->AST lowering is trusted here (C11/C12 own it)",
+        "Sem (lean/GomlVerif/Model/Sem.lean) is the meaning of the IR stages (and the fallback reference); Go.Sem (Model/GoSem.lean) is our reading of the Go spec for the emitted subset, validated against the outputs recorded from real Go",
         "`go`: compared under the schedule that runs a spawned activation to completion at the spawn; real goroutine interleavings are outside the model",
         "floats: Go's shortest float formatting is not modelled; programs printing floats are compared only between stages that share the same formatting function",
         "go_pprint.rs is tied separately: the printed text of every program is parsed back by harness/src/goparse.rs (Go precedence, composite-literal rule) and must equal the AST with expression type annotations erased",
     ]
-    tb = ["Lean 4 (compiled model executable)", "Sem/Go.Sem definitions", "harness/src/dump.rs, godump.rs (IR serialisers)", "tools/props/c01.py"]
-    return ctx.finish("translation_validation", cov, tb, "gomlmodel sem (Lean-compiled Sem / Go.Sem on the real stage dumps)")
+    tb = ["Lean 4 (compiled model executable)", "Sem/Go.Sem definitions", "SrcSem definition", "harness/src/dump.rs, godump.rs (IR serialisers)", "harness/src/astdump.rs (ast::File serialiser)", "tools/props/c01.py"]
+    return ctx.finish("translation_validation", cov, tb, "gomlmodel srcsem + gomlmodel sem (Lean-compiled SrcSem / Sem / Go.Sem on the real AST and stage dumps)")
